@@ -136,53 +136,52 @@ def rule_m1(ctx):
 
 
 def _piece_signature(ctx, fid):
-    """Multiset of (lower bound, upper bound) shapes of the range constructors a split function pushes: each bound is
-    ('r0'|'r1'|'?', '+1'|'-1'|'')."""
+    """Set of (lower bound, upper bound) shapes of the range constructors a split function pushes: each bound is
+    ('r0'|'r1'|'?', '+1'|'-1'|'').  A bound that is chosen between alternatives (`if longer { r0 + 1 } else { r0 }`) contributes
+    every alternative."""
     body = ctx.body(fid)
 
-    def shape(op, depth=6):
+    def shapes(op, adj="", depth=8, seen=()):
         if op["k"] not in ("copy", "move"):
-            return ("const", "")
-        adj = ""
-        cur = op
-        for _ in range(depth):
-            roots = body.trace(cur["place"])
-            nxt = None
-            for (r, p) in roots:
-                if r[0] == "rv" and r[1] in ("binop", "checked_binop"):
-                    rv = body.blocks[r[2]]["stmts"][r[3]]["rv"]
-                    o = rv.get("op", "")
-                    if rv["r"]["k"] == "const" and rv["r"].get("val") == 1 and (o.startswith("Add") or o.startswith("Sub")):
-                        adj += "+1" if o.startswith("Add") else "-1"
-                        nxt = rv["l"]
-                elif r[0] == "rv" and r[1] == "cast":
-                    nxt = body.blocks[r[2]]["stmts"][r[3]]["rv"]["op"]
+            return {("const", "")}
+        if depth == 0:
+            return {("?", adj)}
+        out = set()
+        for (r, p) in body.trace(op["place"]):
+            if r[0] == "rv" and r[1] in ("binop", "checked_binop"):
+                rv = body.blocks[r[2]]["stmts"][r[3]]["rv"]
+                o = rv.get("op", "")
+                if rv["r"]["k"] == "const" and rv["r"].get("val") == 1 and (o.startswith("Add") or o.startswith("Sub")):
+                    out |= shapes(rv["l"], adj + ("+1" if o.startswith("Add") else "-1"), depth - 1)
                 else:
-                    idx = [x for x in p if x.startswith("[")]
-                    if idx:
-                        name = idx[-1].strip("[]")
-                        if name.startswith("_") and name[1:].isdigit():
-                            # an index held in a local: resolve it to its constant
-                            cs = [d[3]["rv"]["op"].get("val") for d in body.defs().get(int(name[1:]), [])
-                                  if d[0] == "assign" and d[3]["rv"]["k"] == "use" and d[3]["rv"]["op"]["k"] == "const"]
-                            name = str(cs[0]) if len(cs) == 1 else "?"
-                        return (("r" + name) if name != "?" else "?", adj)
-                    if r[0] == "call" and mir.last_seg(str(r[2])) == "index":
-                        c = body.term(r[1])
-                        if c["args"][1]["k"] == "const":
-                            return ("r%s" % c["args"][1].get("val"), adj)
-            if nxt is None or nxt["k"] not in ("copy", "move"):
-                break
-            cur = nxt
-        return ("?", adj)
-    sig = []
+                    out.add(("?", adj))
+            elif r[0] == "rv" and r[1] == "cast":
+                out |= shapes(body.blocks[r[2]]["stmts"][r[3]]["rv"]["op"], adj, depth - 1)
+            else:
+                idx = [x for x in p if x.startswith("[")]
+                if idx:
+                    name = idx[-1].strip("[]")
+                    if name.startswith("_") and name[1:].isdigit():
+                        # an index held in a local: resolve it to its constant
+                        cs = [d[3]["rv"]["op"].get("val") for d in body.defs().get(int(name[1:]), [])
+                              if d[0] == "assign" and d[3]["rv"]["k"] == "use" and d[3]["rv"]["op"]["k"] == "const"]
+                        name = str(cs[0]) if len(cs) == 1 else "?"
+                    out.add(((("r" + name) if name != "?" else "?"), adj))
+                elif r[0] == "call" and mir.last_seg(str(r[2])) == "index" and body.term(r[1])["args"][1]["k"] == "const":
+                    out.add(("r%s" % body.term(r[1])["args"][1].get("val"), adj))
+                else:
+                    out.add(("?", adj))
+        return out or {("?", adj)}
+    sig = set()
     for b, blk in enumerate(body.blocks):
         if blk["cleanup"]:
             continue
         for st in blk["stmts"]:
             if st["k"] == "assign" and st["rv"]["k"] == "aggregate" and (st["rv"].get("adt") or "").endswith("Ctor") and "InclusiveRange" in (st["rv"].get("variant") or ""):
                 ops = st["rv"]["ops"]
-                sig.append((shape(ops[1]), shape(ops[2])))
+                for lo in shapes(ops[1]):
+                    for hi in shapes(ops[2]):
+                        sig.add((lo, hi))
     return sorted(sig)
 
 
